@@ -352,3 +352,175 @@ def _evaluator(ctx, repo):
     ctx.ob("E", ok=okg, distinct="lowest-constant")
     if not okg:
         ctx.violation("E", "lowest-bin", m.loc(loop or fn), "the polynomial increment is not restricted to bins above the lowest (whose lower threshold is -inf)")
+    _multiplier_path(ctx, m, fn, th, rates, ic, binvar, incvar)
+    _call_sites(ctx, repo)
+
+
+def _multiplier_path(ctx, m, fn, th, rates, ic, binvar, incvar, _depth=0, _rename=None):
+    """E-mult: with a rates multiplier the intercept of the person's bin is rebuilt as
+    intercepts[0] + sum over the full pieces below the bin (pieces 1 .. bin-1; the lowest piece is constant) of
+    multiplier * rate[k-1, piece] * width(piece)**k.  Decided by finite evaluation of the loop headers, the guard
+    on the bin and the index expressions for n = 3..5 pieces and every bin."""
+    adds = [n for n in ast.walk(fn) if isinstance(n, ast.AugAssign) and isinstance(n.op, ast.Add)
+            and any(isinstance(x, ast.Subscript) and ast.unparse(x.value).startswith(rates) for x in ast.walk(n.value))
+            and incvar not in {x.id for x in ast.walk(n.value) if isinstance(x, ast.Name)}]
+    if not adds and _depth < 2:
+        # the accumulation may live in a helper of the module: follow the call, mapping the names through its parameters
+        for c in ast.walk(fn):
+            if isinstance(c, ast.Call) and isinstance(c.func, ast.Name) and c.func.id in m.functions and c.func.id != fn.name:
+                h = m.functions[c.func.id]
+                hp = [a.arg for a in h.args.posonlyargs + h.args.args + h.args.kwonlyargs]
+                bound = dict(zip(hp, [ast.unparse(a) for a in c.args]))
+                bound.update({kw.arg: ast.unparse(kw.value) for kw in c.keywords if kw.arg})
+                inv = {v: k for k, v in bound.items()}
+                if th in inv and rates in inv and binvar in inv:
+                    rename = {k: v for k, v in bound.items()}
+                    return _multiplier_path(ctx, m, h, inv[th], inv[rates], ic, inv[binvar], incvar, _depth + 1, rename)
+    if not adds:
+        if any(a.arg == "rates_multiplier" for a in fn.args.args):
+            raise AnalysisError("piecewise_polynomial takes a rates_multiplier but no accumulation of scaled rates was found; E-mult needs a re-read")
+        return
+    if len(adds) != 1:
+        raise AnalysisError("scaled-rates accumulation of piecewise_polynomial not recognised; E-mult needs a re-read")
+    add = adds[0]
+    # assignments by name (single definitions are inlined into index expressions)
+    defs = {}
+    for t in ast.walk(fn):
+        if isinstance(t, ast.Assign) and len(t.targets) == 1 and isinstance(t.targets[0], ast.Name):
+            defs.setdefault(t.targets[0].id, []).append(t.value)
+    sub = next(x for x in ast.walk(add.value) if isinstance(x, ast.Subscript) and ast.unparse(x.value).startswith(rates))
+    if isinstance(sub.slice, ast.Tuple) and len(sub.slice.elts) == 2:
+        col = sub.slice.elts[1]
+    else:
+        outer = [x for x in ast.walk(add.value) if isinstance(x, ast.Subscript) and x.value is sub]
+        if not outer:
+            raise AnalysisError("rate selection in the scaled-rates path not recognised; E-mult needs a re-read")
+        col = outer[0].slice
+    pw_ = [x for x in ast.walk(add.value) if isinstance(x, ast.BinOp) and isinstance(x.op, ast.Pow)]
+    if not pw_:
+        raise AnalysisError("power term in the scaled-rates path not found; E-mult needs a re-read")
+    width = pw_[0].left
+    if isinstance(width, ast.Name) and len(defs.get(width.id, [])) == 1:
+        width = defs[width.id][0]
+    wsubs = [x for x in ast.walk(width) if isinstance(x, ast.Subscript) and ast.unparse(x.value) == th]
+    if not (isinstance(width, ast.BinOp) and isinstance(width.op, ast.Sub) and len(wsubs) == 2):
+        raise AnalysisError(f"piece width `{ast.unparse(width)}` in the scaled-rates path is not thresholds[a] - thresholds[b]; E-mult needs a re-read")
+    hi_e, lo_e = width.left.slice, width.right.slice
+
+    # path from the function body to the accumulation: loops and guards
+    def path_to(stmts, target, acc):
+        for st in stmts:
+            if st is target:
+                return acc
+            for blk, tag in ((getattr(st, "body", None), "body"), (getattr(st, "orelse", None), "orelse")):
+                if isinstance(blk, list) and any(target is x for b in blk for x in ast.walk(b)):
+                    if isinstance(st, ast.For):
+                        return path_to(blk, target, [*acc, ("for", st)])
+                    if isinstance(st, ast.If):
+                        return path_to(blk, target, [*acc, ("if", st.test, tag == "body")])
+                    return path_to(blk, target, acc)
+        return None
+
+    path = path_to(fn.body, add, [])
+    if path is None:
+        raise AnalysisError("accumulation site not reachable by structured path; E-mult needs a re-read")
+    SAFE = {"range": range, "len": len, "min": min, "max": max}
+
+    def ev(e, env):
+        e = ast.parse(ast.unparse(e), mode="eval").body
+        for x in ast.walk(e):
+            if isinstance(x, ast.Name) and x.id not in env and x.id not in SAFE:
+                if len(defs.get(x.id, [])) == 1:
+                    env = {**env, x.id: ev(defs[x.id][0], env)}
+                else:
+                    raise KeyError(x.id)
+        return eval(compile(ast.Expression(ast.fix_missing_locations(e)), "<idx>", "eval"), {"__builtins__": SAFE}, dict(env))  # noqa: S307 - integer index expression of the analysed loop
+
+    bad = None
+    n_cases = 0
+    try:
+        for npieces in (3, 4, 5):
+            for b in range(npieces):
+                base = {binvar: b, "num_intervals": npieces, "rates_multiplier": 2}
+                # names equal to len(thresholds) - 1 etc. resolve through `defs`; thresholds has npieces + 1 entries
+                base[th] = list(range(npieces + 1))
+                for hp_, arg_ in (_rename or {}).items():  # helper parameters bound to the caller's quantities
+                    if arg_ == "num_intervals":
+                        base[hp_] = npieces
+                    elif arg_ == "degree_polynomial":
+                        base[hp_] = 1
+                    elif arg_ == "rates_multiplier":
+                        base[hp_] = 2
+                got = set()
+
+                def walk(i, env):
+                    if i == len(path):
+                        got.add((ev(col, env), ev(hi_e, env), ev(lo_e, env)))
+                        return
+                    kind = path[i][0]
+                    if kind == "for":
+                        loop = path[i][1]
+                        if not isinstance(loop.target, ast.Name):
+                            raise KeyError("loop target")
+                        vals = list(ev(loop.iter, env))
+                        # the degree loop does not matter for the set of pieces
+                        if not any(isinstance(x, ast.Name) and x.id == loop.target.id for e_ in (col, hi_e, lo_e) for x in ast.walk(e_)):
+                            vals = vals[:1] or [1]
+                        for v in vals:
+                            env2 = {**env, loop.target.id: v}
+                            # statements of the loop body before the next path element may define names (threshold_incr)
+                            walk(i + 1, env2)
+                    else:
+                        _, test, pol = path[i]
+                        t = ast.unparse(test)
+                        if "is not None" in t or "is None" in t:
+                            val = ("is not None" in t)
+                        else:
+                            val = bool(ev(test, env))
+                        if val == pol:
+                            walk(i + 1, env)
+
+                base["degree_polynomial"] = 1
+                walk(0, base)
+                want = {(j, j + 1, j) for j in range(1, min(b, npieces - 1))}
+                n_cases += 1
+                if got != want and bad is None:
+                    bad = (npieces, b, sorted(got), sorted(want))
+    except Exception as e:  # noqa: BLE001
+        raise AnalysisError(f"scaled-rates path of piecewise_polynomial not evaluable ({e!r}); E-mult needs a re-read") from e
+    ctx.ob("E", ok=bad is None, distinct="scaled-rates", n=n_cases)
+    if bad:
+        npieces, b, got, want = bad
+        ctx.violation("E", "scaled-rates-intercept", m.loc(add), f"with a rates multiplier, {npieces} pieces and the argument in piece {b}, the intercept is rebuilt from (rate column, upper, lower threshold index) {got}; the full pieces below the bin are {want} - the schedule jumps at the lower threshold of that piece")
+
+
+def _call_sites(ctx, repo):
+    """CS: thresholds, rates and intercepts handed to one piecewise_polynomial call belong to one schedule."""
+    ctx.rule("CS", "the thresholds, rates and intercepts_at_lower_thresholds arguments of every piecewise_polynomial call are read from the same parameter (intercepts are generated from that parameter's own thresholds and rates)")
+    n = 0
+    for r in repo.rules:
+        for c in ast.walk(r.node):
+            if not (isinstance(c, ast.Call) and ast.unparse(c.func).split(".")[-1] == "piecewise_polynomial"):
+                continue
+            pos = ["x", "thresholds", "rates", "intercepts_at_lower_thresholds", "rates_multiplier"]
+            a = dict(zip(pos, c.args))
+            a.update({kw.arg: kw.value for kw in c.keywords if kw.arg})
+            bases = {}
+            for k in pos[1:4]:
+                e = a.get(k)
+                if isinstance(e, ast.Subscript) and isinstance(e.slice, ast.Constant):
+                    bases[k] = ast.unparse(e.value)
+                elif isinstance(e, ast.Name):
+                    # a local bound to params[...][key]
+                    for t in ast.walk(r.node):
+                        if isinstance(t, ast.Assign) and isinstance(t.targets[0], ast.Name) and t.targets[0].id == e.id and isinstance(t.value, ast.Subscript) and isinstance(t.value.slice, ast.Constant):
+                            bases[k] = ast.unparse(t.value.value)
+            if len(bases) < 2:
+                continue
+            n += 1
+            ok = len(set(bases.values())) == 1
+            ctx.ob("CS", ok=ok, distinct=(r.qual, c.lineno))
+            if not ok:
+                ctx.violation("CS", f"{r.qual}|{'/'.join(sorted(set(bases.values())))}", f"src/_gettsim/{r.mod.rel}:{c.lineno} {r.name}", f"piecewise_polynomial is called with parts of different schedules: {bases} - intercepts that were generated for other thresholds / rates make the function jump at every threshold")
+    ctx.extra_cov["piecewise_call_sites"] = n
+    ctx.floor("CS", 8)
